@@ -102,6 +102,7 @@ type site struct {
 	Loc     string
 	Kind    string // rd | wr | atomic | unknown
 	Held    []tok
+	Lost    []tok // tokens of the caller this node has released (and not re-acquired) at this point
 	Foreign bool
 	Note    string
 	pos     token.Pos
@@ -112,6 +113,7 @@ type edge struct {
 	Where   string
 	Callee  *fnNode
 	Held    []tok
+	Lost    []tok
 	Foreign bool
 	Note    string
 }
@@ -229,22 +231,25 @@ func (d *domain) unknown(n *fnNode, pos token.Pos, msg string) {
 // ---- walker -----------------------------------------------------------------------------------
 
 type deferred struct {
-	call     *ast.CallExpr
-	prep     *prepared
-	snapshot []heldTok
-	idx      int
+	isRelease bool
+	call      *ast.CallExpr
+	prep      *prepared
+	snapshot  []heldTok
+	idx       int
 }
 
 type walker struct {
-	d       *domain
-	n       *fnNode
-	info    *types.Info
-	held    []heldTok
-	defers  []*deferred
-	exits   [][]heldTok
-	dead    bool
-	loops   []token.Pos
-	retVals [][]*aval
+	lost       []tok
+	branchLost []tok
+	d          *domain
+	n          *fnNode
+	info       *types.Info
+	held       []heldTok
+	defers     []*deferred
+	exits      [][]heldTok
+	dead       bool
+	loops      []token.Pos
+	retVals    [][]*aval
 }
 
 func toks(h []heldTok) []tok {
@@ -273,6 +278,12 @@ func (w *walker) acquire(t tok, param int, of *fnNode) {
 	if !w.has(t) {
 		w.held = append(w.held, heldTok{t: t, relIdx: -1, param: param, of: of})
 	}
+	for i, l := range w.lost {
+		if l == t {
+			w.lost = append(append([]tok{}, w.lost[:i]...), w.lost[i+1:]...)
+			break
+		}
+	}
 }
 
 func (w *walker) release(t tok, pos token.Pos, param int, of *fnNode) {
@@ -282,11 +293,15 @@ func (w *walker) release(t tok, pos token.Pos, param int, of *fnNode) {
 			return
 		}
 	}
-	// releasing something not acquired here: part of the function's net effect (a `with` helper)
+	// releasing something not acquired here: part of the function's net effect (a `with` helper);
+	// from here on the node no longer has what its caller held
 	w.n.netRel = append(w.n.netRel, heldTok{t: t, param: param, of: of})
+	w.lost = append(w.lost, t)
 }
 
 func copyHeld(h []heldTok) []heldTok { return append([]heldTok{}, h...) }
+
+func (w *walker) lostNow() []tok { return append([]tok{}, w.lost...) }
 
 func intersect(a, b []heldTok) []heldTok {
 	var out []heldTok
@@ -304,7 +319,7 @@ func intersect(a, b []heldTok) []heldTok {
 func (w *walker) where(pos token.Pos) string { return w.d.a.l.where(pos) }
 
 func (w *walker) addSite(pos token.Pos, loc, kind string, foreign bool, note string) {
-	w.n.Sites = append(w.n.Sites, site{Where: w.where(pos), Loc: loc, Kind: kind, Held: toks(w.held), Foreign: foreign, Note: note, pos: pos})
+	w.n.Sites = append(w.n.Sites, site{Where: w.where(pos), Loc: loc, Kind: kind, Held: toks(w.held), Lost: w.lostNow(), Foreign: foreign, Note: note, pos: pos})
 }
 
 // ---- node creation ----------------------------------------------------------------------------
@@ -504,6 +519,9 @@ func (w *walker) finalResults() []*aval {
 func (w *walker) runDefers() {
 	for i := len(w.defers) - 1; i >= 0; i-- {
 		df := w.defers[i]
+		if df.isRelease {
+			continue // an unlock: its effect (the token is held until here) was registered with the defer
+		}
 		var h []heldTok
 		for _, x := range df.snapshot {
 			if strings.HasPrefix(string(x.t), "after:") || (x.relIdx >= 0 && x.relIdx < df.idx) {
@@ -545,10 +563,25 @@ func (w *walker) block(list []ast.Stmt) {
 }
 
 func (w *walker) branch(f func()) (held []heldTok, dead bool) {
-	saved, sdead := copyHeld(w.held), w.dead
+	saved, sdead, slost := copyHeld(w.held), w.dead, w.lostNow()
 	f()
 	held, dead = w.held, w.dead
-	w.held, w.dead = saved, sdead
+	// what a branch gave up stays given up afterwards (union over the branches); what it got back
+	// only counts if every branch got it back, which the held-set intersection takes care of
+	merged := slost
+	for _, t := range w.lost {
+		dup := false
+		for _, u := range merged {
+			if u == t {
+				dup = true
+			}
+		}
+		if !dup {
+			merged = append(merged, t)
+		}
+	}
+	w.branchLost = append(w.branchLost, merged...)
+	w.held, w.dead, w.lost = saved, sdead, slost
 	return
 }
 
@@ -568,6 +601,22 @@ func (w *walker) join(pos token.Pos, outs [][]heldTok, deads []bool) {
 		h = intersect(h, o)
 	}
 	w.held = h
+	w.mergeBranchLost()
+}
+
+func (w *walker) mergeBranchLost() {
+	for _, t := range w.branchLost {
+		dup := false
+		for _, u := range w.lost {
+			if u == t {
+				dup = true
+			}
+		}
+		if !dup {
+			w.lost = append(w.lost, t)
+		}
+	}
+	w.branchLost = nil
 }
 
 func (w *walker) stmt(s ast.Stmt) {
@@ -606,7 +655,9 @@ func (w *walker) stmt(s ast.Stmt) {
 		p := w.prepCall(x.Call, true)
 		df := &deferred{call: x.Call, prep: p, idx: len(w.defers)}
 		// which tokens does the deferred call release?
-		for _, t := range w.releasesOf(p) {
+		rels := w.releasesOf(p)
+		df.isRelease = len(rels) > 0
+		for _, t := range rels {
 			for i := range w.held {
 				if w.held[i].t == t && w.held[i].relIdx < 0 {
 					w.held[i].relIdx = df.idx
@@ -686,6 +737,7 @@ func (w *walker) stmt(s ast.Stmt) {
 		}
 		w.loops = w.loops[:len(w.loops)-1]
 		w.held = entry
+		w.mergeBranchLost()
 		if x.Cond == nil && !hasBreak(x.Body) {
 			w.dead = true // for { ... } without break: only leaves through return
 		}
@@ -712,6 +764,7 @@ func (w *walker) stmt(s ast.Stmt) {
 		}
 		w.loops = w.loops[:len(w.loops)-1]
 		w.held = entry
+		w.mergeBranchLost()
 	case *ast.SwitchStmt:
 		w.stmt(x.Init)
 		if x.Tag != nil {
